@@ -56,6 +56,9 @@ impl tx3_tir::compile::Compiler for Recording {
     fn reduce_op(&self, op: Self::CompilerOp) -> Result<Self::Expression, tx3_tir::reduce::Error> {
         self.inner.reduce_op(op)
     }
+    fn reset(&mut self) {
+        self.inner.reset()
+    }
 }
 
 pub const MAX_ROUNDS: usize = 30;
